@@ -230,6 +230,14 @@ pub fn run(rep: &Report) -> i32 {
             other => rep.violation("C11:u256-decimal-literal", format!("{want} at u256 gives {:?}", other.map(|r| r.map(|v| v.to_string()).map_err(|e| e.to_string()))), replay("literal")),
         }
     });
+    // several literals in one scope: ordered pairs and triples of valid literals of one type whose digit strings
+    // coincide across notations (`0x10`, `10`, `0b10`), in a program (each compared with its own witness) and in a
+    // witness module; a literal's value must not depend on the literals written before it
+    let seqs = literal_sequences();
+    rep.set("literal_sequences", json!(seqs.len()));
+    par_for(&seqs, rep, 16, |_, (ty, lits)| {
+        drive::DUMMY.with(|env| check_sequence(rep, ty, lits, env));
+    });
     rep.finish(
         "state = (literal text, type); non-trivial = literals containing an underscore or sitting at a boundary (2^N-1, 2^N)",
         &["R4 (literal rules) written from C11's statement and the book", "witness values for the run-time comparison are built with the Rust value constructors"],
@@ -354,5 +362,135 @@ fn check_case(rep: &Report, c: &Case, idx: usize, env: &drive::Env) {
     }
     if idx % 9973 == 0 || rep.no_sample_yet() {
         rep.sample(5, || json!({"literal": text, "type": c.ty.render(), "r4": format!("{expect:?}")}));
+    }
+}
+
+/// Sequences (length 2 and 3) of valid literals of one integer type.  The digit strings are chosen so that they are
+/// valid in more than one notation at that width; every ordered pair with equal digit strings (both orders, also the
+/// same literal twice), every pair of neighbours in the pool, and every permutation of a same-digits triple.
+fn literal_sequences() -> Vec<(Ty, Vec<Lit>)> {
+    let mut out = vec![];
+    for n in WIDTHS {
+        let ty = Ty::U(n);
+        let mut lens: BTreeSet<usize> = [1usize, 2, 3, n as usize].into_iter().collect();
+        if n >= 8 {
+            lens.insert(n as usize / 4);
+        }
+        let mut digit_strings: BTreeSet<String> = BTreeSet::new();
+        for l in lens {
+            if l == 0 || l > 256 {
+                continue;
+            }
+            digit_strings.insert(format!("1{}", "0".repeat(l - 1)));
+            digit_strings.insert(format!("{}1", "0".repeat(l - 1)));
+            digit_strings.insert("1".repeat(l));
+            digit_strings.insert("10".repeat(l).chars().take(l).collect());
+            digit_strings.insert("01".repeat(l).chars().take(l).collect());
+        }
+        let mut pool: Vec<Lit> = vec![];
+        for d in &digit_strings {
+            for l in [Lit::Dec(d.clone()), Lit::Bin(d.clone()), Lit::Hex(d.clone())] {
+                if matches!(literal(&l, &ty), LitResult::Ok(_)) {
+                    pool.push(l);
+                }
+            }
+        }
+        let digits = |l: &Lit| match l {
+            Lit::Dec(s) | Lit::Bin(s) | Lit::Hex(s) => s.clone(),
+            _ => String::new(),
+        };
+        for (i, a) in pool.iter().enumerate() {
+            for (j, b) in pool.iter().enumerate() {
+                if digits(a) == digits(b) || j == i + 1 || i == j + 1 {
+                    out.push((ty.clone(), vec![a.clone(), b.clone()]));
+                }
+            }
+        }
+        for d in &digit_strings {
+            let same: Vec<&Lit> = pool.iter().filter(|l| digits(l) == *d).collect();
+            if same.len() == 3 {
+                for perm in [[0, 1, 2], [0, 2, 1], [1, 0, 2], [1, 2, 0], [2, 0, 1], [2, 1, 0]] {
+                    out.push((ty.clone(), perm.iter().map(|&k| same[k].clone()).collect()));
+                }
+            }
+        }
+    }
+    out
+}
+
+fn check_sequence(rep: &Report, ty: &Ty, lits: &[Lit], env: &drive::Env) {
+    rep.state();
+    rep.transition(lits.len() as u64);
+    let texts: Vec<String> = lits.iter().map(lit_text).collect();
+    let vals: Vec<Val> = lits
+        .iter()
+        .map(|l| match literal(l, ty) {
+            LitResult::Ok(v) => v,
+            LitResult::Reject(_) => unreachable!("pool holds valid literals only"),
+        })
+        .collect();
+    let differing = vals.windows(2).any(|w| w[0] != w[1]);
+    if differing {
+        rep.nontrivial(1);
+    }
+    // program: let a0: T = l0; let a1: T = l1; ...; assert!(eq(a_i, witness::V_i));
+    let mut h = crate::gen::Helpers::default();
+    let mut stmts: Vec<Stmt> = vec![];
+    for (i, l) in lits.iter().enumerate() {
+        stmts.push(Stmt::Let(Pat::id(&format!("a{i}")), ty.clone(), Expr::Lit(l.clone())));
+    }
+    for i in 0..lits.len() {
+        let eq = h.eq_call(ty, Expr::Var(format!("a{i}")), Expr::Witness(format!("V{i}")));
+        stmts.push(Stmt::Expr(assert_(eq)));
+    }
+    let mut items: Vec<Item> = h.fns.into_iter().map(Item::Fn).collect();
+    items.push(Item::Fn(FnDef { name: "main".into(), params: vec![], ret: None, body: (stmts, None) }));
+    let ptext = Program { items }.render();
+    rep.eval(1);
+    match drive::build(&ptext, simfony::Arguments::default(), false) {
+        Ok(built) => {
+            let mut runs: Vec<(Vec<Val>, bool)> = vec![(vals.clone(), true)];
+            for i in 0..vals.len() {
+                if let Some(o) = other_vals(ty, &vals[i], 1).pop() {
+                    let mut vs = vals.clone();
+                    vs[i] = o;
+                    runs.push((vs, false));
+                }
+            }
+            for (vs, should) in runs {
+                let w: Vec<(String, Val, Ty)> = vs.iter().enumerate().map(|(i, v)| (format!("V{i}"), v.clone(), ty.clone())).collect();
+                rep.eval(1);
+                rep.trace(1);
+                let out = drive::run(&built, drive::witness_map(&w), env);
+                let ok = matches!((&out, should), (RunOutcome::Success, true) | (RunOutcome::Failure(_), false));
+                rep.class(if ok { "sequence-run-ok" } else { "sequence-run-wrong" });
+                if !ok {
+                    rep.violation(
+                        format!("C11:sequence-runtime-value:{}", out.class()),
+                        format!("literals {} at {} in one scope, compared with witnesses {}: expected {}, got {:?}", texts.join(", "), ty.render(), vs.iter().map(|v| render_expr(&crate::refmodel::val_expr(v, ty))).collect::<Vec<_>>().join(", "), if should { "success" } else { "failure" }, out),
+                        json!({"kind": "run", "program": ptext, "args": [], "witness": map_json(&w), "debug": false, "env": "dummy", "expect": if should {"success"} else {"failure"}, "observed": out.class()}),
+                    );
+                }
+            }
+        }
+        Err(e) => rep.violation("C11:program-rejected-valid-literal", format!("program with the valid literals {} at {} not compiled: {e:?}", texts.join(", "), ty.render()), json!({"kind": "compile", "program": ptext, "expect": "accept", "observed": "reject"})),
+    }
+    // witness module with the same literals
+    let mtext = format!("mod witness {{\n{}}}\n", texts.iter().enumerate().map(|(i, t)| format!("    const A{i}: {} = {t};\n", ty.render())).collect::<String>());
+    rep.eval(1);
+    rep.trace(1);
+    let replay = json!({"kind": "witness_module", "text": mtext, "expect": vals.iter().map(|v| render_expr(&crate::refmodel::val_expr(v, ty))).collect::<Vec<_>>()});
+    match drive::guard(|| simfony::WitnessValues::parse_from_str(&mtext).map(|m| (0..vals.len()).map(|i| m.get(&simfony::str::WitnessName::from_str_unchecked(&format!("A{i}"))).cloned()).collect::<Vec<_>>())) {
+        Err(p) => rep.violation(format!("C11:panic:witness-module:{}", drive::panic_site(&p)), format!("parsing {mtext:?} panicked: {p}"), replay),
+        Ok(Err(e)) => rep.violation("C11:module-rejected-valid-literal", format!("witness module {mtext:?} rejected: {}", drive::first_line(&e.to_string())), replay),
+        Ok(Ok(got)) => {
+            let want: Vec<Option<simfony::Value>> = vals.iter().map(|v| Some(drive::sim_val(v, ty))).collect();
+            if got != want {
+                rep.class("sequence-module-wrong");
+                rep.violation("C11:sequence-module-value", format!("witness module {mtext:?} assigns {:?}", got.iter().map(|v| v.as_ref().map(|v| v.to_string())).collect::<Vec<_>>()), replay);
+            } else {
+                rep.class("sequence-module-ok");
+            }
+        }
     }
 }
